@@ -268,6 +268,74 @@ mod imp {
         Ok(())
     }
 
+    /// Many distinct expressions (a hundred or more) compiled again and again by all
+    /// threads through the shared default runtime while being searched: whatever a
+    /// runtime remembers about compiled texts is under constant turnover.  Every
+    /// compile + search must give the sequential result for that text.
+    pub fn compile_storm(src: &mut Src, st: &mut Stats, _env: &Env) -> CaseResult {
+        let n_expr = 70 + src.below(230);
+        let shape = src.below(5);
+        let exprs: Vec<String> = (0..n_expr)
+            .map(|i| match shape {
+                0 => format!("[n, `{}`, length(objs)]", i),
+                1 => format!("{{k{}: s, v: nums[{}]}}", i, i % 7),
+                2 => format!("objs[?n > `{}`].s | [0]", i as i64 - 3),
+                3 => format!("'lit {}' == s || `{}`", i, i),
+                _ => format!("sort_by(objs, &n)[{}].s || to_string(`{}`)", i % 5, i),
+            })
+            .collect();
+        let doc_text = schema_doc(src).to_json();
+        let doc: jmespath::Rcvar = Arc::new(jmespath::Variable::from_json(&doc_text).unwrap());
+        let want: Vec<Option<String>> = exprs.iter().map(|e| jmespath::compile(e).ok().map(|c| outcome(c.search(&doc)))).collect();
+        let n_threads = 2 + src.below(15);
+        let iters = 200 + src.below(600);
+        let seeds: Vec<u64> = (0..n_threads).map(|_| src.u64() | 1).collect();
+        st.eval();
+        let barrier = Barrier::new(n_threads);
+        let bad: Mutex<Vec<String>> = Mutex::new(vec![]);
+        let panicked = std::thread::scope(|sc| {
+            let hs: Vec<_> = (0..n_threads)
+                .map(|ti| {
+                    let (barrier, exprs, doc, want, bad, seeds) = (&barrier, &exprs, &doc, &want, &bad, &seeds);
+                    sc.spawn(move || {
+                        barrier.wait();
+                        let mut x = seeds[ti];
+                        for _ in 0..iters {
+                            // xorshift: which expression next (a few hot ones, the rest cold)
+                            x ^= x << 13;
+                            x ^= x >> 7;
+                            x ^= x << 17;
+                            let i = if x % 4 == 0 { (x >> 8) as usize % 8 } else { (x >> 8) as usize % exprs.len() };
+                            let got = jmespath::compile(&exprs[i]).ok().map(|c| outcome(c.search(doc)));
+                            if got != want[i] {
+                                bad.lock().unwrap().push(format!("thread {} {:?}: got {:?}, sequential {:?}", ti, exprs[i], got, want[i]));
+                                return;
+                            }
+                        }
+                    })
+                })
+                .collect();
+            hs.into_iter().map(|h| h.join().is_err()).any(|x| x)
+        });
+        let case = json!({"expressions": n_expr, "first_expressions": exprs.iter().take(3).collect::<Vec<_>>(), "document": doc_text, "threads": n_threads, "iterations": iters});
+        if panicked {
+            return Err(Failure::new("compile-storm", "panic-in-thread", "a worker thread panicked".into(), case));
+        }
+        let bad = bad.into_inner().unwrap();
+        if let Some(b) = bad.first() {
+            return Err(Failure::new("compile-storm", "concurrent-result-differs-from-sequential", format!("{} threads diverged; first: {}", bad.len(), clip(b, 300)), case));
+        }
+        let after: Vec<Option<String>> = exprs.iter().map(|e| jmespath::compile(e).ok().map(|c| outcome(c.search(&doc)))).collect();
+        if after != want {
+            return Err(Failure::new("compile-storm", "sequential-result-changed-after-concurrent-run", "results after the run differ".into(), case));
+        }
+        st.class_n("compile-storm:compiles", (n_threads * iters) as u64);
+        if st.nontrivial(&case.to_string()) {
+            st.sample(|| json!({"expressions": n_expr, "threads": n_threads, "iterations": iters}));
+        }
+        Ok(())
+    }
+
     /// Contention: many threads (up to 32) repeat the SAME deep or long-running search on
     /// shared data for a while, so that at every instant most threads are deep inside the
     /// interpreter; every single result must equal the sequential one.
@@ -500,6 +568,7 @@ pub fn property() -> Property {
         Sub::Bytes(BytesSub { name: "workload", f: imp::workload, max_len: 3000, quick: Budget { threads: 2, cases: 400 }, thorough: Budget { threads: 2, cases: 15_000 }, keep_unreproducible: true }),
         Sub::Bytes(BytesSub { name: "contention", f: imp::contention, max_len: 2500, quick: Budget { threads: 1, cases: 60 }, thorough: Budget { threads: 1, cases: 2000 }, keep_unreproducible: true }),
         Sub::Bytes(BytesSub { name: "custom-runtime", f: imp::custom_runtime, max_len: 1200, quick: Budget { threads: 1, cases: 600 }, thorough: Budget { threads: 1, cases: 20_000 }, keep_unreproducible: true }),
+        Sub::Bytes(BytesSub { name: "compile-storm", f: imp::compile_storm, max_len: 1200, quick: Budget { threads: 1, cases: 60 }, thorough: Budget { threads: 1, cases: 3000 }, keep_unreproducible: true }),
         Sub::Custom(CustomSub { name: "first-use", run: imp::first_use, replay: imp::replay_first_use }),
         Sub::Custom(CustomSub { name: "tsan", run: imp::tsan, replay: imp::replay_tsan }),
     ];
